@@ -5,6 +5,7 @@ package valsim
 
 import (
 	"fmt"
+	"os"
 	"sync"
 	"time"
 
@@ -15,6 +16,7 @@ import (
 	"github.com/ethereum/go-ethereum/common"
 	"github.com/herumi/bls-eth-go-binary/bls"
 	"go.uber.org/zap"
+	"go.uber.org/zap/zapcore"
 
 	"github.com/bloxapp/ssv/message/validation"
 	"github.com/bloxapp/ssv/networkconfig"
@@ -188,6 +190,10 @@ func newWorld(d *sim.D, prop string) *world {
 	opts := []validation.Option{validation.WithNodeStorage(w.ns), validation.WithDutyStore(w.duties)}
 	if own := cfg.Get("own_op", 0); own > 0 {
 		opts = append(opts, validation.WithOwnOperatorID(operatordatastore.New(&registrystorage.OperatorData{ID: uint64(own), PublicKey: rsaPub[own-1]})))
+	}
+	if d.KeepLog { // verbose replay: print the validator's own reason for every reject / ignore (stdout only, not the event log)
+		enc := zapcore.NewConsoleEncoder(zapcore.EncoderConfig{MessageKey: "m"})
+		opts = append(opts, validation.WithLogger(zap.New(zapcore.NewCore(enc, zapcore.AddSync(os.Stdout), zapcore.DebugLevel))))
 	}
 	w.mv = validation.NewMessageValidator(w.netCfg, opts...)
 	w.ref = newReference(w)
